@@ -59,5 +59,7 @@ def check(tier, seed):
         'rule': 'one round trip per (set, seed, mode, message, context, rnd, sk provenance in {generated, round-tripped}, pk provenance in {generated, round-tripped, derived from either}); '
                 'non-trivial = signing succeeded and the signature was presented to verification under the stated provenance pair',
         'tie': 'correspondence + property oracle verify(sign(..)) = true on the crate'},
-        ['Lean: Algorithm 8 accepts what Algorithm 7 emits (signature_verifies_spec_partial) for the exact specifications that C03 / C02 prove equal to sign_internal / verify_internal; '
-         'one hypothesis of that theorem is not discharged in Lean - that the emitted bytes decode back to the (c~, z, h) that were encoded (sigDecode after sigEncode); the correspondence and verify(sign(..)) = true on the crate cover it on every run'])
+        ['Lean (Props/C01c): sign_then_verify - for every oracle, seed, message, context, pre-hash, rnd, build mode and parameter set, whenever the model of sign_internal returns a signature under the generated private key, '
+         'the model of verify_internal returns true under the generated / deserialised / derived public key; also at the level of try_sign_with_rng / verify and the hash variants. '
+         'The theorem is about the hand-written model of the crate (tied to the source by the translator for constants, tables and decision expressions and by the correspondence run for behaviour) '
+         'with the hash functions an arbitrary oracle and the rejection loop bounded by fuel * l <= 65535; verify(sign(..)) = true is also run on the crate itself on every run'])
